@@ -392,6 +392,9 @@ def _run(ctx, rng, kind, **kw):
                 (nm, "spaces", pem.replace(b"\n", b" \n ")), (nm, "empty", b""), (nm, "junk", b"junk"), (nm, "only_dashes", b"-----"),
                 (nm, "begin_only", lines[0]), (nm, "begin_only_nl", lines[0] + b"\n"),
                 (nm, "str_input", pem.decode()), (nm, "str_junk", "junk"), (nm, "str_nonascii", pem.decode().replace("M", "\u00e9", 1)),
+                # text read from a file with errors="surrogateescape": an undecodable byte becomes a lone surrogate, which no codec will encode
+                (nm, "str_lone_surrogate", pem.decode().replace("M", "\udc80", 1)), (nm, "str_lone_surrogate_outside", pem.decode() + "\udcff\n"),
+                (nm, "str_astral", pem.decode().replace("M", "\U0001f511", 1)), (nm, "str_nul", pem.decode().replace("M", "\x00", 1)),
             ]
             if nm == "priv":
                 cases.append((nm, "with_ec_parameters", R.pem(R.enc_oid(tuple(curve.oid)), "EC PARAMETERS") + pem))
